@@ -4,7 +4,7 @@ A task is (job index, decision prefix).  All jobs start as one task with the emp
 worker is idle and the queue is empty, a busy worker hands over its shallowest unexplored alternative as
 a decision prefix.  Every path is owned by exactly one worker.
 """
-import multiprocessing as mp, queue, time, traceback, sys, os, importlib, random
+import multiprocessing as mp, queue, time, traceback, sys, os, importlib, random, signal
 from .engine import Ctx, PathAbort, Unsupported
 
 
@@ -19,6 +19,15 @@ def build(job):
 
 
 FINDING_CAP = 12
+PATH_TIMEOUT_S = int(os.environ.get('VERIF_PATH_TIMEOUT_S', '240'))
+
+
+class PathTimeout(BaseException):
+    """a single path ran longer than PATH_TIMEOUT_S: the code under execution may not terminate on these inputs"""
+
+
+def _on_alarm(signum, frame):
+    raise PathTimeout()
 
 
 def _explore_task(job, jidx, pre, shared, stats, sample_every, known_builder, deadline):
@@ -48,6 +57,8 @@ def _explore_task(job, jidx, pre, shared, stats, sample_every, known_builder, de
             break
         c.start_path()
         status = 'ok'
+        signal.signal(signal.SIGALRM, _on_alarm)
+        signal.setitimer(signal.ITIMER_REAL, PATH_TIMEOUT_S)
         try:
             if profile is not None and npaths == 0:
                 def prof(frame, event, arg):
@@ -62,6 +73,15 @@ def _explore_task(job, jidx, pre, shared, stats, sample_every, known_builder, de
                     sys.setprofile(None)
             else:
                 h.fn(c, *args)
+        except PathTimeout:
+            signal.setitimer(signal.ITIMER_REAL, 0)
+            m = None
+            try: m = c.current_model()
+            except BaseException: pass
+            stats['errors'].append('PATH-TIMEOUT: one path did not finish within %d s - the code under execution may not terminate; a model of the path so far: %s'
+                                   % (PATH_TIMEOUT_S, {k: v for k, v in (m or {}).items() if '!' not in k}))
+            jdead[jidx] = 1
+            break
         except PathAbort:
             status = 'aborted'; stats['aborted'] += 1
         except Unsupported as e:
@@ -80,6 +100,7 @@ def _explore_task(job, jidx, pre, shared, stats, sample_every, known_builder, de
             stats['errors'].append(traceback.format_exc()[-1500:])
             jdead[jidx] = 1
             break
+        signal.setitimer(signal.ITIMER_REAL, 0)
         npaths += 1
         if c.findings:
             for f in c.findings:
